@@ -300,6 +300,13 @@ def rule_y5(chk: Check, ir):
 
 
 def run(chk: Check):
+    _run(chk)
+    from .c03 import rule_e9
+    from ..pyflow import Index as _Ix
+    rule_e9(chk, _Ix())  # an error object that cannot be constructed is not a well-formed error
+
+
+def _run(chk: Check):
     chk.explanation = (
         "Ownership and layout rules over the ~200 lines of error plumbing: SyntaxError/IndentationError are constructed only "
         "by the two builders, whose argument tuples have the CPython layout with both 0->1-based column conversions; the text "
